@@ -272,6 +272,8 @@ def time_shift(z, /, shift, crop=False):
     shifted = shifted if np.iscomplexobj(z.data) else shifted.real
 
     start, stop = 0, 0
+    if shift.ndim > 0:
+        shift = np.broadcast_to(shift, z.sample_shape)
     it = np.nditer(shift, flags=["multi_index"])
     for a in it:
         if a < 0:
